@@ -612,6 +612,13 @@ def run(rep, tier):
         c15.clause_f(facts, rep)
         clause_shift(facts, rep, ns)
     rep.min_instances('E3.read', 25)
+    # one raw value skipped from any alignment: start / end / no stray read, byte by byte (sv/scaneval.py; shared by C10, C11, C15, C20)
+    from .. import scaneval
+    for cfg6 in ('K1', 'K3'):
+        try:
+            scaneval.clause(get_facts(cfg6), rep, tier)
+        except AnalysisBroken as ex:
+            rep.broken.append(str(ex))
     rep.trust('clang 14 front end', 'vector load widths (sv/primitives.py)', 'TrailingZeroes(m) in [0, bits(m)-1] for m != 0; to_bitmask() of an N-lane vector < 2^N',
               'libc memcpy/memcmp read exactly the stated range', 'a SkipScanner object is used with a single buffer (rule E7.fresh-parser of C02)')
     rep.assumptions += [
